@@ -1121,3 +1121,7 @@ M('C03', 'ft-rotate_at_epoch-bypasses-entry', GW, "        Self::rotate_signers(
 M('C09', 'bypass-still-enforces-delay', GW, "        auth::rotate_signers(&env, &signers, !bypass_rotation_delay)?;", "        auth::rotate_signers(&env, &signers, true)?;", 'C09.R3')
 M('C04', 'ttl-extension-of-untrusted-key', ITS, "        extend_persistent_ttl(env, &DataKey::TrustedChain(source_chain));\n        extend_instance_ttl(env);", "        extend_persistent_ttl(env, &DataKey::TrustedChain(message_id));\n        extend_instance_ttl(env);", 'C04.R5')
 M('C05', 'ttl-extension-of-untrusted-key-c05', ITS, "        extend_persistent_ttl(env, &DataKey::TrustedChain(source_chain));\n        extend_instance_ttl(env);", "        extend_persistent_ttl(env, &DataKey::TrustedChain(message_id));\n        extend_instance_ttl(env);", 'C05.R6')
+
+# ---------------- seeded round 12: "currently trusted" is part of the outbound properties too ----------------
+MUTANTS.append(dict(next(m for m in MUTANTS if m['id'] == 'remove_trusted_chain-noop'), prop='C18', id='remove_trusted_chain-noop-c18', expect='C18.R7'))
+MUTANTS.append(dict(next(m for m in MUTANTS if m['id'] == 'remove_trusted_chain-noop'), prop='C05', id='remove_trusted_chain-noop-c05', expect='C05.R7'))
